@@ -476,7 +476,7 @@ theorem tickAll_succeeds (cfg : Cfg) : ∀ (l : List Ctr) (w : Store) (cons : In
         | false => rfl
         | true => rw [(hcomp hcc).1] at hn; rw [hcc] at hn; cases hn
       have hoc : o ∈ c.unfinished := by
-        rcases t4 with e | ⟨r, e⟩
+        rcases t4 with e | ⟨r, e, _⟩
         · rw [← e]; exact ho
         · rw [e]; exact List.mem_cons_of_mem _ ho
       exact hdisj o (mem_ownOf_of hcn hoc) hx
